@@ -42,6 +42,16 @@ def instances(tier):
         out.append(mk("c07_%s" % mode.lower(), "C07/c07.c", rc.UNITS, dict(D, **{"MODE_" + mode: None}), unwind=UW,
                       default_unwind=3, encoded_units=rc.ENC, fp_removal=True, replay_units=rc.REPLAY_UNITS, object_bits=12, timeout=3000,
                       kf_keys=(["burst_hdcrc_boundary"] if mode == "BURST" else [])))
+    # The protocol instances above link the bit-serial CRC specification instead of src/crc-16-arc.c (see
+    # regp_common.py). That the real file computes that function -- for odd and even lengths, octet and word
+    # variants -- is property C16; the same harness is run here as well, so that a change to crc-16-arc.c that
+    # would let damaged frames through is reported under C07 too (seed C07-D).
+    L = 5 if tier == "quick" else 9
+    out.append(mk("c07_crc_contract_octets", "C16/c16.c", ["src/crc-16-arc.c"], {"MODE_BUFFER": None, "LEN": L},
+                  unwind={"ufw_crc16_arc": L + 2, "ref_step": 9, "ref_crc": L + 2}, default_unwind=10, no_models=True))
+    out.append(mk("c07_crc_contract_words", "C16/c16.c", ["src/crc-16-arc.c"], {"MODE_WORDS": None, "LEN": 4},
+                  unwind={"ufw_crc16_arc": 10, "ufw_crc16_arc_u16": 6, "ref_step": 9, "ref_crc": 10, "harness": 6},
+                  default_unwind=10, no_models=True))
     if tier == "quick":
         out.append(mk("c07_flip2", "C07/c07.c", rc.UNITS, dict(D, MODE_FLIP2=None), unwind=UW,
                       default_unwind=3, encoded_units=rc.ENC, fp_removal=True, replay_units=rc.REPLAY_UNITS, object_bits=12, timeout=3000))
